@@ -95,6 +95,68 @@ def register_obligations(ctx: Ctx, col: Collector, RULE: str, sel: dict) -> None
 
 
 
+def constructor_target_obligations(ctx: Ctx, col: Collector, RULE: str) -> None:
+    """Which assignment targets of a constructor become attributes of the class, and with which static flag (shared with C12)."""
+    repo = ctx.repo
+    # in a constructor only members of the instance itself are attributes of the class (nothing is invented)
+    pafi = repo.function(VISITOR, f"{VCLS}._parse_attributes")
+    col.touched(pafi)
+
+    def var(is_self: bool, name: str) -> Obj:
+        return Obj("NameExpr", (("name", Const(name)), ("node", Obj("Var", (("is_self", Const(is_self)), ("name", Const(name)))))))
+
+    shapes = [("self.x", Obj("MemberExpr", (("name", Const("x")), ("expr", var(True, "self")))), 1),
+              ("parent.child (member of another object)", Obj("MemberExpr", (("name", Const("child")), ("expr", var(False, "parent")))), 0),
+              ("self.sub.deep (member of a member)", Obj("MemberExpr", (("name", Const("deep")), ("expr", Obj("MemberExpr", (("name", Const("sub")), ("expr", var(True, "self"))))))), 0),
+              ("index (local name inside a tuple target)", Obj("NameExpr", (("name", Const("index")), ("node", Obj("Var", (("is_self", Const(False)), ("name", Const("index"))))))), 0)]
+    for label, lv, want in shapes:
+        st = visitor_state((parent_obj("Module"), parent_obj("Class"), parent_obj("Constructor")))
+        st.facts["call:self._is_attribute_already_defined"] = False
+        outs = ctx.interp(pafi).run_function(pafi, {"self": Sym("self"), "lvalue": lv, "unanalyzed_type": Sym("unanalyzed_type"), "is_static": Const(False)}, st)
+        counts = set()
+        for o in outs:
+            if o.kind == "raise":
+                continue
+            already = any(k.startswith("truthy:") and "_is_attribute_already_defined" in k and v for k, v in o.facts)
+            if already:
+                continue
+            counts.add(sum(1 for e in o.effects if e.kind == "call" and e.target == "self._create_attribute"))
+        key = f"{VISITOR}::{VCLS}._parse_attributes::constructor-target::{label.split(' ')[0]}"
+        good = counts == {want}
+        (col.ok if good else col.bad)(RULE, key, repo.loc(VISITOR, pafi.node), f"{label}: {want} attribute(s)" if good else f"{label}: attributes created per path {sorted(counts)}, reference {want}",
+                                      *([] if good else [f"a constructor assignment to `{label}` creates {sorted(counts)} attribute(s) of the class instead of {want}: "
+                                                         + ("the instance attribute is lost" if want else "`parent.child = self`, `cfg.options.verbose = True` or `index, self.pos = 0, 1` in __init__ add "
+                                                            "attributes (child, verbose, index) the class does not declare")]))
+
+    # unpacking in a constructor: each element is judged like a target of its own, as an instance attribute
+    tup = Obj("TupleExpr", (("items", ListV((shapes[0][1], shapes[3][1]))),))
+    st = visitor_state((parent_obj("Module"), parent_obj("Class"), parent_obj("Constructor")))
+    outs = ctx.interp(pafi, inline={"_parse_attributes"}).run_function(pafi, {"self": Sym("self"), "lvalue": tup, "unanalyzed_type": Sym("unanalyzed_type"), "is_static": Const(False)}, st)
+    probs = set()
+    seen_paths = 0
+    for o in outs:
+        if o.kind == "raise":
+            continue
+        if any(k.startswith("truthy:") and "_is_attribute_already_defined" in k and v for k, v in o.facts):
+            continue
+        seen_paths += 1
+        creates = [e for e in o.effects if e.kind == "call" and e.target == "self._create_attribute"]
+        if len(creates) != 1:
+            probs.add(f"{len(creates)} attributes for `self.x, index = ...`")
+        for e in creates:
+            static_arg = dict(e.kwargs).get("is_static", e.args[2] if len(e.args) > 2 else None)
+            if static_arg != Const(False):
+                probs.add(f"is_static={static_arg!r} for an element of a constructor's tuple target")
+            if e.args and e.args[0] != shapes[0][1]:
+                probs.add("the attribute is created for the local name")
+    key = f"{VISITOR}::{VCLS}._parse_attributes::constructor-target::tuple"
+    good = seen_paths > 0 and not probs
+    (col.ok if good else col.bad)(RULE, key, repo.loc(VISITOR, pafi.node), "`self.x, index = ...` in a constructor: one instance attribute (x)" if good else "; ".join(sorted(probs)) or "no path",
+                                  *([] if good else [f"the elements of a tuple / list target in a constructor are not parsed like single targets of the same statement ({sorted(probs)[0] if probs else 'no path'}): "
+                                                     f"`self.x, self.y = x, y` gives static attributes and `lo, hi = ...` invents attributes lo and hi"]))
+
+
+
 def check(ctx: Ctx, col: Collector, tier: str) -> None:
     repo = ctx.repo
     col.spec("C03.CHILD-KINDS", "nothing public is dropped: the walker descends into every declaration-bearing statement class at each container level",
@@ -243,35 +305,7 @@ def check(ctx: Ctx, col: Collector, tier: str) -> None:
             (col.ok if good else col.bad)("C03.ATTR-TARGETS", key, repo.loc(VISITOR, asfi.node), f"_parse_attributes(lvalue, ..., is_static={static}) on every path" if good else "not parsed on some path",
                                           *([] if good else [f"an assignment to a {tcls} target below a {p} is not parsed into attributes (is_static={static}): those attributes vanish"]))
 
-    # in a constructor only members of the instance itself are attributes of the class (nothing is invented)
-    pafi = repo.function(VISITOR, f"{VCLS}._parse_attributes")
-    col.touched(pafi)
-
-    def var(is_self: bool, name: str) -> Obj:
-        return Obj("NameExpr", (("name", Const(name)), ("node", Obj("Var", (("is_self", Const(is_self)), ("name", Const(name)))))))
-
-    shapes = [("self.x", Obj("MemberExpr", (("name", Const("x")), ("expr", var(True, "self")))), 1),
-              ("parent.child (member of another object)", Obj("MemberExpr", (("name", Const("child")), ("expr", var(False, "parent")))), 0),
-              ("self.sub.deep (member of a member)", Obj("MemberExpr", (("name", Const("deep")), ("expr", Obj("MemberExpr", (("name", Const("sub")), ("expr", var(True, "self"))))))), 0),
-              ("index (local name inside a tuple target)", Obj("NameExpr", (("name", Const("index")), ("node", Obj("Var", (("is_self", Const(False)), ("name", Const("index"))))))), 0)]
-    for label, lv, want in shapes:
-        st = visitor_state((parent_obj("Module"), parent_obj("Class"), parent_obj("Constructor")))
-        st.facts["call:self._is_attribute_already_defined"] = False
-        outs = ctx.interp(pafi).run_function(pafi, {"self": Sym("self"), "lvalue": lv, "unanalyzed_type": Sym("unanalyzed_type"), "is_static": Const(False)}, st)
-        counts = set()
-        for o in outs:
-            if o.kind == "raise":
-                continue
-            already = any(k.startswith("truthy:") and "_is_attribute_already_defined" in k and v for k, v in o.facts)
-            if already:
-                continue
-            counts.add(sum(1 for e in o.effects if e.kind == "call" and e.target == "self._create_attribute"))
-        key = f"{VISITOR}::{VCLS}._parse_attributes::constructor-target::{label.split(' ')[0]}"
-        good = counts == {want}
-        (col.ok if good else col.bad)("C03.ATTR-TARGETS", key, repo.loc(VISITOR, pafi.node), f"{label}: {want} attribute(s)" if good else f"{label}: attributes created per path {sorted(counts)}, reference {want}",
-                                      *([] if good else [f"a constructor assignment to `{label}` creates {sorted(counts)} attribute(s) of the class instead of {want}: "
-                                                         + ("the instance attribute is lost" if want else "`parent.child = self`, `cfg.options.verbose = True` or `index, self.pos = 0, 1` in __init__ add "
-                                                            "attributes (child, verbose, index) the class does not declare")]))
+    constructor_target_obligations(ctx, col, "C03.ATTR-TARGETS")
 
     # ------------------------------------------------------------------ COVERAGE
     colls = [("_create_module_string", "module", "global_functions", "self._create_function_string", {"is_public": Const(True)}),
@@ -405,6 +439,36 @@ def check(ctx: Ctx, col: Collector, tier: str) -> None:
     (col.ok if not probs and houts else col.bad)("C03.MOVE", f"{GEN}::{GENCLS}._has_node_shorter_reexport::append-iff-true", repo.loc(GEN, hfi.node),
                                                  f"{len(houts)} paths: appended to the re-export list exactly on the paths that return True" if not probs else "; ".join(sorted(set(probs))),
                                                  *([] if not probs and houts else [sorted(set(probs or ['no path']))[0]]))
+    # only module-level declarations can be moved: every emission of a class or function from inside a class (nested classes, inherited nested
+    # classes, methods) must bypass the re-export test, which has side effects (it registers the declaration for the re-export module)
+    gm3 = repo.module(GEN)
+    for fi in gm3.functions.values():
+        inside_class = fi.qualname.rsplit(".", 1)[-1] in ("_create_class_string", "_create_internal_class_string", "_create_class_method_string")
+        if not inside_class:
+            continue
+        for n in ast.walk(fi.node):
+            if isinstance(n, ast.Call) and ast.unparse(n.func) in ("self._create_class_string", "self._create_function_string"):
+                kw = {k.arg: k.value for k in n.keywords}
+                bypass = any(isinstance(kw.get(a), ast.Constant) and kw[a].value is True for a in ("in_reexport_module", "is_method"))
+                key = f"{GEN}::{fi.qualname}::member-emission-bypasses-move::{ast.unparse(n.func).split('.')[-1]}"
+                (col.ok if bypass else col.bad)("C03.MOVE", key, repo.loc(GEN, n), f"`{ast.unparse(n)[:80]}`",
+                                                *([] if bypass else [f"{fi.qualname} emits a member of a class through `{ast.unparse(n)[:60]}` without in_reexport_module=True / is_method=True: the re-export test runs for a "
+                                                                     f"declaration that cannot be moved, registers it for a re-export module (changing the dictionary that create_reexport_module_strings iterates: "
+                                                                     f"RuntimeError) and drops its text from the class"]))
+    # the alias a moved declaration takes is the alias of the import that names *it*, not of an import whose name merely ends like it
+    for label, qn, want_alias in (("own import", "._impl.read", True), ("import of a longer name", "._impl.fast_read", False), ("import of a module path ending in the name", "._impl.read.helpers", False)):
+        qi = Obj("QualifiedImport", (("qualified_name", Const(qn)), ("alias", Const("fread"))))
+        mod = Obj("Module", (("id", Const("pkg")), ("qualified_imports", ListV((qi,)))))
+        nodeo = Obj("Function", (("name", Const("read")), ("reexported_by", ListV((mod,)))))
+        aouts = ctx.interp(hfi).run_function(hfi, {"self": Sym("self"), "node": nodeo}, gen_state({"self.reexport_modules": Sym("self.reexport_modules")}))
+        moved = [o for o in aouts if o.kind == "return" and o.value == Const(True)]
+        renamed = [o for o in moved if any(e.kind == "store" and e.target == "node.name" for e in o.effects)]
+        good = bool(moved) and ((len(renamed) == len(moved)) if want_alias else not renamed)
+        key = f"{GEN}::{GENCLS}._has_node_shorter_reexport::alias-of::{qn}"
+        (col.ok if good else col.bad)("C03.MOVE", key, repo.loc(GEN, hfi.node), f"{label} (`from {qn} import ... as fread`), declaration `read`: renamed on {len(renamed)} of {len(moved)} moving paths",
+                                      *([] if good else [f"a moved declaration `read` takes the alias of `from {qn.rsplit('.', 1)[0]} import {qn.rsplit('.', 1)[1]} as fread` ({label}): with "
+                                                         f"`from ._impl import read, fast_read as fread` both functions are written as `fread` into one stub file and `read` is lost"
+                                                         if not want_alias else "the alias of the declaration's own import is not applied"]))
     for fname, arg, extra in (("_create_class_string", "class_", {"class_indentation": Const("")}), ("_create_function_string", "function", {"indentations": Const(""), "is_method": Const(False)})):
         fi = repo.function(GEN, f"{GENCLS}.{fname}")
         outs = ctx.interp(fi).run_function(fi, {"self": Sym("self"), arg: Sym(arg), "in_reexport_module": Const(False), **extra}, gen_state())
@@ -448,7 +512,7 @@ def check(ctx: Ctx, col: Collector, tier: str) -> None:
                                                  "each moved class/function yields exactly one module entry rendered with in_reexport_module=True" if inner and not probs else "; ".join(sorted(set(probs))) or "loop not found",
                                                  *([] if inner and not probs else [sorted(set(probs or ['loop over moved declarations not found']))[0]]))
     from .shared import share
-    share(ctx, col, "C17", {"C17.RECURSE", "C17.FILTER"}, "inherited members are emitted exactly once")
+    share(ctx, col, "C17", {"C17.RECURSE", "C17.FILTER", "C17.OWN-FIRST", "C17.ACCUM-THREAD"}, "inherited members are emitted exactly once")
     share(ctx, col, "C04", {"C04.REEXPORT-GUARDS", "C04.REEXPORT-TABLE", "C04.PUBLICITY-TABLE"}, "nothing public is dropped: the publicity decision is the reference one")
     share(ctx, col, "C12", {"C12.ATTR-DEDUP-SCOPE"}, "an attribute is dropped as 'already defined' only if its own class already has it")
     col.assume("that both shortest-re-export computations (string matching over arbitrary names) pick the same target, and name collisions after conversion, are not decided")
